@@ -8,6 +8,8 @@
 (*   mode "same"  : obs = val as SYNTAX terms (two outputs parse alike)       *)
 (*                                                               (C03, C09)   *)
 (*   mode "cut"   : obs = CutSyn(val, N, re, rk) for which (re, rk)   (C11)   *)
+(*   mode "comment": obs = val (uncommented print) and comment words = merge  *)
+(*                  of the attached comments                          (C09)   *)
 (***************************************************************************)
 EXTENDS PyTerm, TLC, Json, IOUtils
 
@@ -17,6 +19,14 @@ VARIABLE cs
 Init == cs \in 1..Len(Cases)
 Next == FALSE /\ UNCHANGED cs
 
+RECURSIVE IsMerge(_, _)
+\* out is an interleaving of the sequences in seqs (each kept in order, nothing else)
+IsMerge(out, seqs) ==
+  IF Len(out) = 0 THEN \A i \in 1..Len(seqs) : Len(seqs[i]) = 0
+  ELSE \E i \in 1..Len(seqs) :
+         /\ Len(seqs[i]) > 0 /\ seqs[i][1] = out[1]
+         /\ IsMerge(Tail(out), [seqs EXCEPT ![i] = Tail(@)])
+
 Subs(c) == {<<c.subs[i][1], c.subs[i][2]>> : i \in 1..Len(c.subs)}
 
 Verdict(c) ==
@@ -24,6 +34,9 @@ Verdict(c) ==
     [] c.mode = "trunc" -> /\ TEq(Denote(c.obs, Subs(c)), Truncate(c.val, c.N))
                            /\ SameBag(c.notices, Dropped(c.val, c.N))
     [] c.mode = "same" -> c.obs = c.val
+    \* C09: same syntax tree as the uncommented print, and the words found in '#'
+    \* comments are an order-preserving merge of the attached comment texts
+    [] c.mode = "comment" -> c.obs = c.val /\ IsMerge(c.cwords, c.attached)
 
 \* C11: which of the four (empty-at-cut, str-key-at-cut) variants the output equals
 CutVariants(c) == {<<re, rk>> \in BOOLEAN \X BOOLEAN : c.obs = CutSyn(c.val, c.N, re, rk)}
